@@ -4,7 +4,7 @@
    theorem showing its hypotheses are satisfiable by a non-trivial state.
    Coordinates are Z scaled by 16, squared distances scaled by 256 (Model/ContGeom.v). *)
 From Coq Require Import ZArith List Bool.
-From Mesa Require Import Common.ListX Model.ContGeom Model.ContLegacy Model.ContExp
+From Mesa Require Import Common.ListX Generated.Tables Model.ContGeom Model.ContLegacy Model.ContExp
   Proofs.ContGeomProofs Proofs.ContExpProofs Proofs.ContLegacyProofs.
 Import ListNotations.
 Open Scope Z_scope.
@@ -176,6 +176,27 @@ Theorem C18_continuous_atomic_exp_position : forall c ops o s' e,
   estep c (e_final c (e_init c) ops) o = (s', Some (Err e)) -> s' = e_final c (e_init c) ops.
 Proof. exact exp_atomic. Qed.
 Print Assumptions C18_continuous_atomic_exp_position.
+
+(* ================= T1: the source constructs the models transcribe ================= *)
+
+(* re-extracted from the working tree on every run (harness/tables/continuous.py): the comparison operators of
+   legacy out_of_bounds (x < min or x >= max, per axis) and of experimental in_bounds (>= lo & <= hi), the growth
+   rule of the position array (fraction 1/5, at least 1 row, taken when shape[0] <= index), the kth argument of
+   argpartition (k - 1) and the three radius comparisons (dists <= radius**2, dists[x] > 0, distances <= radius)
+   are the ones oob_half, in_closed, growth / add_agent, the guard of EKNearest, neighbors_of and in_radius encode *)
+Theorem C10_source_shapes :
+  gen_cont_legacy_oob = [KLt; KGe; KLt; KGe] /\ gen_cont_exp_in_bounds = [KGe; KLe] /\
+  gen_cont_exp_growth = ((1, 5, 1), KLe) /\ gen_cont_exp_kth_offset = -1 /\
+  gen_cont_radius_ops = [KLe; KGt; KLe].
+Proof. exact (conj eq_refl (conj eq_refl (conj eq_refl (conj eq_refl eq_refl)))). Qed.
+Print Assumptions C10_source_shapes.
+
+(* the modelled growth is the extracted rule: round(n/5) = (2n+5)/10 rows, but at least the extracted minimum,
+   hence at least one row - what the invariant n <= capacity needs *)
+Theorem C10_growth_positive : forall n,
+  growth n = Nat.max ((2 * n + 5) / 10) (Z.to_nat (snd (fst gen_cont_exp_growth))) /\ (1 <= growth n)%nat.
+Proof. exact growth_spec. Qed.
+Print Assumptions C10_growth_positive.
 
 (* ================= non-vacuity ================= *)
 Definition ex_cfg (cap : nat) : ecfg := {| ec_bounds := [(-16, 48); (0, 64)]; ec_torus := true; ec_cap := cap |}.
